@@ -5,6 +5,7 @@ import (
 	"os"
 	"runtime/debug"
 	"testing"
+	"time"
 
 	"verifharness/vkit"
 )
@@ -20,6 +21,7 @@ type c22Witness struct {
 	DatasetNo int          `json:"dataset_no"`
 	QueryNo   int          `json:"query_no"`
 	Shards    []c22WitSpec `json:"shards,omitempty"`
+	Q         *c22Query    `json:"q,omitempty"` // the minimised query as a structure (for TestC22Replay)
 }
 
 type c22WitSpec struct {
@@ -39,14 +41,20 @@ func c22WitSpecs(specs []c22ShardSpec) []c22WitSpec {
 
 // c22Check runs one query on the stack and compares with the reference.
 func c22Check(st *c22Stack, m *c22Model, q *c22Query) (class, detail string, exp *c22Expect) {
+	class, detail, exp, _ = c22CheckG(st, m, q)
+	return
+}
+
+func c22CheckG(st *c22Stack, m *c22Model, q *c22Query) (class, detail string, exp *c22Expect, got []c22OutSeries) {
+	var err error
 	q.StarDims = nil
 	exp = m.Eval(q)
 	if exp.Ambiguous != "" {
-		return "", "", exp
+		return "", "", exp, nil
 	}
-	got, err := st.c22Run(q.String())
+	got, err = st.c22Run(q.String())
 	if err != nil {
-		return "error", err.Error(), exp
+		return "error", err.Error(), exp, nil
 	}
 	if q.GroupStar && len(got) > 0 {
 		dims := []string{}
@@ -54,27 +62,38 @@ func c22Check(st *c22Stack, m *c22Model, q *c22Query) (class, detail string, exp
 			dims = append(dims, k)
 		}
 		if d := m.c22StarDimsOK(q, dims); d != "" {
-			return "star_dims", d, exp
+			return "star_dims", d, exp, got
 		}
 		q.StarDims = dims
 		exp = m.Eval(q)
 		if exp.Ambiguous != "" {
-			return "", "", exp
+			return "", "", exp, nil
 		}
 	}
 	class, detail = c22Diff(q, exp, got)
 	if class == "" && q.SLimit > 0 && !q.Desc {
 		class, detail = c22Pages(st, q, exp)
 	}
-	return class, detail, exp
+	return class, detail, exp, got
 }
 
 // c22Pages: SLIMIT n SOFFSET 0,n,2n,… must enumerate every expected series exactly once
 // (whatever order the engine slices), each page full except the last.
 func c22Pages(st *c22Stack, q *c22Query, exp *c22Expect) (class, detail string) {
+	// under GROUP BY * the expanded key set may differ between pages (it depends on the shards
+	// selected); a series is identified by its non-empty tags
+	norm := func(name string, tags map[string]string) string {
+		t := map[string]string{}
+		for k, v := range tags {
+			if v != "" || !q.GroupStar {
+				t[k] = v
+			}
+		}
+		return name + "|" + c22TagString(t)
+	}
 	want := map[string]bool{}
 	for _, s := range exp.AllSeries {
-		want[s.Name+"|"+c22TagString(s.Tags)] = true
+		want[norm(s.Name, s.Tags)] = true
 	}
 	seen := map[string]bool{}
 	n := q.SLimit
@@ -100,7 +119,7 @@ func c22Pages(st *c22Stack, q *c22Query, exp *c22Expect) (class, detail string) 
 			return "series_page", fmt.Sprintf("page SLIMIT %d SOFFSET %d has %d series %s, want %d of %d", n, off, len(got), c22GotSeriesNames(got), wantN, len(want))
 		}
 		for _, g := range got {
-			k := g.Name + "|" + c22TagString(g.Tags)
+			k := norm(g.Name, g.Tags)
 			if !want[k] || seen[k] {
 				return "series_page", fmt.Sprintf("page SLIMIT %d SOFFSET %d returns unexpected or repeated series %s", n, off, k)
 			}
@@ -286,14 +305,69 @@ func c22HoldsOnOneShard(q *c22Query, specs []c22ShardSpec) bool {
 	return e.Ambiguous == "" && cl == ""
 }
 
+// c22Shift moves every stored timestamp and shard boundary by k ns.
+func c22Shift(specs []c22ShardSpec, k int64) []c22ShardSpec {
+	out := make([]c22ShardSpec, len(specs))
+	for i, s := range specs {
+		out[i] = c22ShardSpec{Lo: s.Lo + k, Hi: s.Hi + k, Snap: s.Snap, Reopen: s.Reopen}
+		for _, b := range s.Batches {
+			var nb []c22Write
+			for _, w := range b {
+				w.T += k
+				nb = append(nb, w)
+			}
+			out[i].Batches = append(out[i].Batches, nb)
+		}
+	}
+	return out
+}
+
+// c22HoldsShifted re-runs the query with all data and both time bounds moved by a multiple of
+// the GROUP BY interval so that every timestamp is positive: a disagreement that disappears
+// is caused by negative (pre-1970) times.
+func c22HoldsShifted(q *c22Query, specs []c22ShardSpec) bool {
+	if q.Interval == 0 {
+		return false
+	}
+	k := (1001*c22U/q.Interval + 1) * q.Interval
+	sh := c22Shift(specs, k)
+	dir, err := os.MkdirTemp("", "c22shift")
+	if err != nil {
+		return false
+	}
+	st, err := c22OpenStack(dir, sh)
+	if err != nil {
+		os.RemoveAll(dir)
+		return false
+	}
+	defer st.Close()
+	m := c22NewModel()
+	for _, s := range sh {
+		for _, b := range s.Batches {
+			for _, w := range b {
+				m.Put(w)
+			}
+		}
+	}
+	c := *q
+	c.TLo += k
+	c.THi += k
+	cl, _, e := c22Check(st, m, &c)
+	return e.Ambiguous == "" && cl == ""
+}
+
+var c22MinCount = map[string]int{}
+
 func c22Report(r *vkit.Run, st *c22Stack, ds *c22Dataset, q *c22Query, dsNo, qNo int, class, detail string, extraFeat map[string]string) {
 	w := c22Witness{Query: q.String(), Class: class, Diff: detail, Dataset: ds.Describe, DatasetNo: dsNo, QueryNo: qNo}
 	mq := q
 	if class != "error" || true {
 		mq = c22MinimiseQuery(st, ds.Model, q, class)
 		w.MinQuery = mq.String()
-		if r.Violations() < 12 {
-			ms := c22MinimiseData(mq, ds.Specs, class, 120)
+		w.Shards = c22WitSpecs(ds.Specs)
+		if c22MinCount[class] < 1 {
+			c22MinCount[class]++
+			ms := c22MinimiseData(mq, ds.Specs, class, 60)
 			w.Shards = c22WitSpecs(ms)
 			// diff on the minimised pair
 			if dir, err := os.MkdirTemp("", "c22w"); err == nil {
@@ -315,17 +389,41 @@ func c22Report(r *vkit.Run, st *c22Stack, ds *c22Dataset, q *c22Query, dsNo, qNo
 			}
 		}
 	}
+	w.Q = mq
 	feat := mq.features()
 	if (mq.SLimit > 0 || mq.SOff > 0) && len(ds.Specs) > 1 && c22HoldsOnOneShard(mq, ds.Specs) {
 		feat["observed"] = class
 		class = "slimit_depends_on_shard_layout"
 		w.Class = class
 	}
-	if mq.Fill == 'l' && mq.TLo < 0 {
-		feat["negative_time"] = "true"
+	if mq.Fill == 'l' && mq.TLo < 0 && class == "row_value" && c22HoldsShifted(mq, ds.Specs) {
+		feat["observed"] = class
+		class = "fill_linear_negative_time"
+		w.Class = class
+	}
+	if (class == "row_value" || class == "row_count") && mq.Fill == 'x' && mq.Limit > 0 && len(mq.Cols) > 1 {
+		// every column alone agrees with the reference, only the joint LIMIT/OFFSET result differs
+		alone := true
+		for i := range mq.Cols {
+			c := *mq
+			c.Cols = []c22Col{mq.Cols[i]}
+			if cl, _, e := c22Check(st, ds.Model, &c); cl != "" || e.Ambiguous != "" {
+				alone = false
+			}
+		}
+		if alone {
+			feat["observed"] = class
+			class = "limit_per_column_with_fill_none"
+			w.Class = class
+		}
 	}
 	for k, v := range extraFeat {
 		feat[k] = v
+	}
+	if _, _, e := c22Check(st, ds.Model, mq); e != nil {
+		for k, v := range e.Notes {
+			feat[k] = v
+		}
 	}
 	r.Violation(class, feat, w)
 }
@@ -345,6 +443,7 @@ func TestC22(t *testing.T) {
 	defer c22PanicGuard(t)
 	r.Rule("case = (dataset, query): dataset = 2 measurements × 3–9 series (2–3 tag keys, sparse tag t2) × 1–3 typed fields on a 1 s grid with negative timestamps, stored in 1–3 real shards with TSM snapshots, cache-resident batches, overwrites and optional reopen; query drawn from the C22 grammar (raw | count/sum/mean/min/max/first/last; WHERE time+tags+fields; GROUP BY time(i[,off]) / tags / *; fill; ORDER BY time DESC; LIMIT/OFFSET/SLIMIT/SOFFSET) and executed by query.Select over coordinator.LocalShardMapper, rows via query.Emitter(chunk 0); compared with the independent reference evaluator. non-trivial = the reference result has ≥ 1 row and the query range holds ≥ 2 stored points; distinct = hash of (dataset description, query text)")
 	r.Trust("github.com/influxdata/influxql parser (statement text → AST)", "vkit/sk shard opener")
+	var reportDur time.Duration
 	nDS := r.N(40, 1500)
 	perDS := r.N(30, 40)
 	excluded := []string{
@@ -354,6 +453,11 @@ func TestC22(t *testing.T) {
 		"duplicate output column names without alias (naming of duplicates is not part of the documented semantics)",
 		"regular-expression conditions on tags that some series lack",
 		"OFFSET without LIMIT and SOFFSET without SLIMIT (documentation: 'requires a LIMIT/SLIMIT clause ... can cause inconsistent query results')",
+		"value of a call column for an output series that has no value of that field at all while another column has: null or the documented fill value/count 0 both accepted",
+		"fill(previous) together with ORDER BY time DESC ('previous' chronological or in output order)",
+		"SLIMIT/SOFFSET: over several measurements, with ORDER BY time DESC, or combined with a series emptied by OFFSET; which series are counted when some are emptied by the time range or a field condition, and where a series lacking a GROUP BY tag sorts (then only membership, per-series rows and exhaustive pagination are checked)",
+		"order of output series under ORDER BY time DESC (compared as a set)",
+		"the same call twice in one SELECT",
 		"subqueries, math on columns, selectors with auxiliary fields, INTO, time zone clause",
 	}
 	for di := 0; di < nDS; di++ {
@@ -399,10 +503,13 @@ func TestC22(t *testing.T) {
 				r.Sample(map[string]any{"dataset": ds.Describe, "query": q.String(), "expected_series": len(exp.Series), "expected_rows": rows})
 			}
 			if class != "" {
+				t0 := time.Now()
 				c22Report(r, st, ds, q, di, qi, class, detail, nil)
+				reportDur += time.Since(t0)
 			}
 		}
 		st.Close()
 	}
 	r.Extra("excluded", excluded)
+	r.Extra("seconds_spent_minimising_and_classifying_violations", reportDur.Seconds())
 }
